@@ -108,7 +108,7 @@ class FoldMV:
         done.add(key)
         eng = self.I.eng
         E, IN, S, T = self.E, self.IN, self.S, self.T
-        eng.assume(z3.Implies(i <= 0, z3.And(E(i), z3.Not(IN(i, t)), S(i, t) == 0, T(i) == 0)))
+        eng.assume_def(z3.Implies(i <= 0, z3.And(E(i), z3.Not(IN(i, t)), S(i, t) == 0, T(i) == 0)))
         j = z3.simplify(i - 1)
         tm = self.term(j)
         step = [E(i) == z3.And(E(j), tm.is_empty),
@@ -117,11 +117,11 @@ class FoldMV:
         if self.with_total:
             tt0 = tm.total0
             if tt0 is not None: step.append(T(i) == T(j) + tt0)
-        eng.assume(z3.Implies(i >= 1, z3.And(*step)))
+        eng.assume_def(z3.Implies(i >= 1, z3.And(*step)))
         # representation invariant of every partial sum: an Empty sum has no index and no value
-        eng.assume(z3.Implies(E(i), z3.And(z3.Not(IN(i, t)), S(i, t) == 0)))
-        if self.with_total: eng.assume(z3.Implies(E(i), T(i) == 0))
-        eng.assume(z3.Implies(z3.Not(IN(i, t)), S(i, t) == 0))
+        eng.assume_def(z3.Implies(E(i), z3.And(z3.Not(IN(i, t)), S(i, t) == 0)))
+        if self.with_total: eng.assume_def(z3.Implies(E(i), T(i) == 0))
+        eng.assume_def(z3.Implies(z3.Not(IN(i, t)), S(i, t) == 0))
 
     def at(self, i) -> MV:
         E, IN, S, T = self.E, self.IN, self.S, self.T
@@ -151,8 +151,8 @@ class FoldQ:
         if key not in done:
             done.add(key)
             j = z3.simplify(i - 1)
-            self.I.eng.assume(z3.Implies(i <= 0, self.S(i) == 0))
-            self.I.eng.assume(z3.Implies(i >= 1, self.S(i) == self.S(j) + self.term(j)))
+            self.I.eng.assume_def(z3.Implies(i <= 0, self.S(i) == 0))
+            self.I.eng.assume_def(z3.Implies(i >= 1, self.S(i) == self.S(j) + self.term(j)))
         return self.S(i)
 
 
@@ -183,7 +183,7 @@ def fold_sum(I, xs: SList, start):
             I.note_read(e); return z3.BoolVal(False), e.value.phys
         fq = FoldQ(I, name, lambda j: z3.If(parts(j)[0], z3.RealVal(0), parts(j)[1]))
         fe = FoldB(I, name, lambda j: parts(j)[0])
-        unit = Unit(dim, z3.Real(f"{name}.unit")); eng.assume(unit.f > 0)
+        unit = Unit(dim, z3.Real(f"{name}.unit")); eng.assume_def(unit.f > 0)
         res = Expl("eq", Qty(fq.at(n), unit), Label(False), left=Opaque("partial sum"), right=xs.elem(n - 1), operator="+",
                    anc=frozenset([(xs.name, "*")]))
         if isinstance(probe, ExplU):
@@ -215,7 +215,7 @@ def induct(I, name, P, at):
         eng.assume(k >= 0); eng.assume(P(k))
         eng.oblige(f"lemma/{name}/step", P(k + 1), kind="lemma")
         eng.run.pc[:] = saved
-    eng.assume(z3.Implies(at >= 0, P(at)))
+    eng.assume_def(z3.Implies(at >= 0, P(at)))
 
 
 class FoldB:
@@ -235,6 +235,6 @@ class FoldB:
         if key not in done:
             done.add(key)
             j = z3.simplify(i - 1)
-            self.I.eng.assume(z3.Implies(i <= 0, self.A(i)))
-            self.I.eng.assume(z3.Implies(i >= 1, self.A(i) == z3.And(self.A(j), self.term(j))))
+            self.I.eng.assume_def(z3.Implies(i <= 0, self.A(i)))
+            self.I.eng.assume_def(z3.Implies(i >= 1, self.A(i) == z3.And(self.A(j), self.term(j))))
         return self.A(i)
